@@ -13,7 +13,7 @@ func c09LabOpts() lab.GenOpts {
 	return lab.GenOpts{
 		Engines: []string{"v1", "v2"}, MaxSources: 2, MaxDests: 3, MaxRecords: 12, MaxProcs: 2,
 		Nacks: true, Filters: true, Splits: true, Conditions: true, Workers: true,
-		UnlimitedDLQ: true, GateAcks: true, Hostile: true, FreeSched: 30, GateCalls: 50,
+		UnlimitedDLQ: true, GateAcks: true, Hostile: true, FreeSched: 30, GateCalls: 50, Holds: true,
 		ClientKinds: []string{"stop", "stopandwait", "forcestop", "forcestop"}, ClientProb: 0.5,
 		MaxRetries: []int64{0, 1},
 	}
@@ -28,9 +28,14 @@ func TestC09Lab(t *testing.T) {
 	defer st.Finish(t)
 	opts := c09LabOpts()
 	rapid.Check(t, func(t *rapid.T) {
+		// (a third of the cases run with the boundary scheduler switched off: plugins answer at
+		// once, so replies can arrive inside windows of the engine that a settled world never shows)
 		c := lab.GenCase(t, opts)
-		// a third of the cases run with the boundary scheduler switched off: plugins answer at
-		// once, so replies can arrive inside windows of the engine that a settled world never shows
+		if c.GatePluginCalls && lab.Chance(t, "force-stop-into-slow-calls", 70) {
+			// plugin calls answer late AND a force stop cancels them: the engine abandons calls
+			// whose replies still arrive afterwards
+			c.Client = []lab.ClientAction{{Kind: "forcestop", AtStep: rapid.IntRange(0, 2*c.TotalRecords()+6).Draw(t, "forceat")}}
+		}
 		res, m, h := runLab(t, "C09", c)
 		if res.ProvisionErr != nil {
 			t.Fatalf("provision: %v", res.ProvisionErr)
@@ -65,10 +70,14 @@ func c09LabOracle(res *lab.Result, m *lab.Model, h *lab.History) []lab.Violation
 		shape = "none"
 	}
 	var vs []lab.Violation
-	for _, v := range lab.CheckWedge(res) {
-		v.Prop = "C09"
-		v.Key = strings.Replace(v.Key, "C11/wedge/", "C09/lab/wedge/", 1) + "/" + shape
-		vs = append(vs, v)
+	// (a plugin that never answers makes "never ends" legitimate: no wedge verdict for those cases;
+	// they are there for the force stops they provoke while plugin calls answer late)
+	if !c.HasHold() {
+		for _, v := range lab.CheckWedge(res) {
+			v.Prop = "C09"
+			v.Key = strings.Replace(v.Key, "C11/wedge/", "C09/lab/wedge/", 1) + "/" + shape
+			vs = append(vs, v)
+		}
 	}
 	// accounting survives a hostile DESTINATION reply (the fate model knows these shapes); for
 	// hostile source positions and processor results only crash and wedge are judged here (the
